@@ -123,7 +123,13 @@ def check(ctx):
     sg = ctx.fn("framing", "Framer.segue")
     S = FuncView(ctx, sg)
     loops = _framing.loops_over(S, "self.actives")
-    ctx.floor("T3-firstwins:loops", len(loops), 2)
+    if len(loops) < 2:
+        ctx.bad("T3-firstwins", sg, "Framer.segue has %d loop(s) over self.actives" % len(loops),
+                "segue must first run the transitions of the auxiliaries of *every* active frame and only then evaluate the "
+                "frames' own transitions top-down; fused into one pass, an upper frame's transition is evaluated before a "
+                "lower frame's auxiliary has run (it sees the aux's store changes one tick late) and, when it fires, the lower "
+                "auxes are not segued that tick")
+        return
     pc = [n for n in S.cfg.nodes if n.kind == "test" and any(isinstance(x, ast.Call) and suffix_match(call_name(x), "frame.precur")
                                                              for x in ast.walk(n.ast.test))]
     S.need(pc, "frame.precur() test")
